@@ -444,6 +444,19 @@ def body_combined(I, X, late_add=False):
     ok = pand(ok, len(single) == len(distinct))
     td = I.call(cmd.to_dict, ())
     ok = pand(ok, len(list(I.dict_items(td))) == len(distinct))
+    # get() with a type: the first wrapped dict whose first value for the key converts wins
+    d3 = I.call(ds.MultiDict, ([(k0, "x"), ("c", "5")],))
+    d4 = I.call(ds.MultiDict, ([(k1, "7"), (k0, "8")],))
+    cmd2 = I.call(ds.CombinedMultiDict, ([d3, d4],))
+    for probe in (k0, k1, "c"):
+        want = None
+        for pairs in ([(k0, "x"), ("c", "5")], [(k1, "7"), (k0, "8")]):
+            firsts = [v for k, v in pairs if bool(peq(k, probe))]
+            if firsts and firsts[0].isdigit():
+                want = int(firsts[0])
+                break
+        got = I.call(cmd2.get, (probe,), {"type": int})
+        ok = pand(ok, got == want)
     return ok, {"len": n, "multi": [list(x) for x in multi]}
 
 
